@@ -115,3 +115,24 @@ async fn f_c17_a_connect_early_bytes_reach_the_target() -> anyhow::Result<()> {
     assert!(text.contains("early-bytes"), "the bytes sent together with the CONNECT header never reached the target (echo missing): {:?}", text);
     Ok(())
 }
+
+/// F-C17-b  http_text.determine_target.host_header_is_recognised_in_any_capitalisation
+/// an origin-form request whose Host field name is not spelled exactly `Host`/`host` (field names are case-insensitive)
+/// must be forwarded to that host like any other; the upstream echo returns the rewritten request
+#[tokio::test]
+async fn f_c17_b_host_header_in_any_capitalisation() -> anyhow::Result<()> {
+    let (http_addr, up_port) = http_stack().await?;
+    let mut s = timeout(Duration::from_secs(5), TcpStream::connect(&http_addr)).await??;
+    let req = format!("GET /x HTTP/1.1\r\nHOST: 127.0.0.1:{up_port}\r\nAccept: */*\r\n\r\n");
+    s.write_all(req.as_bytes()).await?;
+    let mut got = Vec::new();
+    let mut buf = [0u8; 1024];
+    let deadline = tokio::time::Instant::now() + Duration::from_secs(5);
+    while tokio::time::Instant::now() < deadline && !String::from_utf8_lossy(&got).contains("\r\n\r\n") {
+        match timeout(Duration::from_millis(500), s.read(&mut buf)).await { Ok(Ok(n)) if n > 0 => got.extend_from_slice(&buf[..n]), Ok(Ok(_)) => break, _ => {} }
+    }
+    let text = String::from_utf8_lossy(&got).to_string();
+    assert!(text.starts_with("GET /x HTTP/1.1\r\n"), "the request was not forwarded to the host named by `HOST:` (got {:?})", text);
+    assert_eq!(text.to_ascii_lowercase().matches("\r\nhost:").count(), 1, "exactly one Host line expected: {:?}", text);
+    Ok(())
+}
